@@ -414,12 +414,4 @@ def rule_build_part(ctx: RuleContext, ts: TS, rid: str) -> None:
         problems.append(f'loop runs while `{norm(loops[0].test)}`')
     ctx.check(not problems, rid, 'token_store:_build_blocks', '; '.join(problems) or 'ok', '; '.join(problems), f.where,
               note=f'{len(branches)} branches: contiguous slices, open-ended tail, counters in step')
-    # split / rebalance in _merge_blocks: b takes a.tokens[length:], a keeps [:length]
-    m = ts._need('TokenStore._merge_blocks')
-    txt = [norm(s) for s in ast.walk(m.node) if isinstance(s, (ast.Assign, ast.Delete, ast.AugAssign))]
-    lens = [a for a in ast.walk(m.node) if isinstance(a, ast.Assign) and norm(a.targets[0]) == 'length']
-    a_, b_ = m.params[1], m.params[2]
-    ok = f'{a_}.tokens += {b_}.tokens' in txt and f'{b_}.tokens[:] = {a_}.tokens[length:]' in txt and f'del {a_}.tokens[length:]' in txt \
-        and txt.index(f'{b_}.tokens[:] = {a_}.tokens[length:]') < txt.index(f'del {a_}.tokens[length:]') and len(lens) == 1
-    ctx.check(ok, rid, 'token_store:TokenStore._merge_blocks: rebalance', 'b takes a.tokens[length:] before a is truncated',
-              f'_merge_blocks does not move all of b into a and then split at one position ({[t for t in txt if "tokens" in t]})', m.where)
+    # (the rebalance in _merge_blocks used to be matched textually here; TS-SEQ now evaluates it symbolically)
